@@ -220,6 +220,8 @@ def check(ctx: Ctx) -> None:
     check_no_self_normalisation(ctx, 'C04.k', [MI], floor=30)
     from ..idioms import check_mean_counts
     check_mean_counts(ctx, 'C04.l', [MI, 'pyphysim/util/misc.py'], floor=30)
+    from ..idioms import check_constructor_uses_setter
+    check_constructor_uses_setter(ctx, 'C04.m', [MI], floor=3)
     if deferred is not None:
         raise deferred
     if cannot_tell:
